@@ -24,14 +24,14 @@ from checks import c04_history, c04_large, c04_model as model   # noqa: E402
 PROP = "C04"
 LEVEL = "exploration"
 RULE = (
-    "Point alphabet of 13 points = 10 positions (3-point meridian cluster "
+    "Point alphabet of 15 points = 10 positions (3-point meridian cluster "
     "spaced 0.6 max_distance, 2 points across the date line, the pole with "
     "two longitudes, a far point, NaN latitude, NaN longitude) x seconds "
-    "{0, 6, 10, 12, 1000} with max_distance 5 km, max_interval 10 s (|dt| = "
+    "{-0.25, 0, 6, 9.25, 10, 12, 1000} with max_distance 5 km, max_interval 10 s (|dt| = "
     "10 s occurs and must be excluded). Datasets carry an id variable and "
     "unique unsorted labels (7, 3, 11) on the point dimension. base: every "
     "ordered pair of sequences (with repetition) of length 1..2 over the "
-    "alphabet (quick: over 8 of the 13 points), default configuration, "
+    "alphabet (quick: over 9 of the 15 points), default configuration, "
     "numpy.random.shuffle replaced by each member of {identity, reversal, "
     "transpositions (0 i)} (quick: reversal). three (thorough): every pair "
     "of sequences of length 1..3 over 5 points with a 3-sequence on at least "
@@ -41,8 +41,8 @@ RULE = (
     "five start/end windows (between points, closed on points, excluding "
     "everything, start only, end only; datetime objects or strings), "
     "primary and secondary swapped, leaf_size 1, magnitude_factor 1, "
-    "bin_factor 2 and 0.5 - on all pairs of sequences of length 1..2 over 6 "
-    "points (quick: length 1 over all 13 points, plus the identity "
+    "bin_factor 2 and 0.5 - on all pairs of sequences of length 1..2 over 8 "
+    "points (quick: length 1 over all 15 points, plus the identity "
     "shuffle); dev2 (thorough): every two simultaneous deviations on "
     "sequences of length 1..2 over 4 points. grid: 2 x 2 grids made of two "
     "of 6 scan lines (quick 3) against every grid x 5 family members and x 5 "
@@ -54,7 +54,10 @@ RULE = (
 ASSUMPTIONS = [
     "the Earth is the sphere of radius typhon.constants.earth_radius; "
     "'straight-line distance' is the 3-D chord",
-    "times are whole seconds (the stored interval is truncated to seconds)",
+    "times are whole seconds or quarter seconds; the stored interval has "
+    "a resolution of one second: a value less than 1 s from |dt| is "
+    "accepted, and it has to be the same value whichever of the two points "
+    "is the primary",
     "both max_distance and max_interval are given (spatial-only and "
     "temporal-only searches are other modes)",
     "datasets carry coordinates with unique labels on their point / grid "
@@ -69,9 +72,9 @@ ASSUMPTIONS = [
     "large part has 1000-1003 points per side",
 ]
 
-P13 = "ABCDEFGHIJKLM"
-P8 = "ABCDEFKM"
-P6 = "ABDFKM"
+PALL = "ABCDEFGHIJKLMNO"
+PQUICK = "ABCDEFKMN"
+PDEV = "ABDFKMNO"
 P5 = "ABDKM"
 P4 = "ABDK"
 
@@ -102,8 +105,8 @@ def deviations(order):
 
 def shards(tier, seed):
     quick = tier == "quick"
-    out = [("base", tier, s) for s in sequences(P8 if quick else P13, 2)]
-    out += [("dev1", tier, s) for s in sequences(P13 if quick else P6,
+    out = [("base", tier, s) for s in sequences(PQUICK if quick else PALL, 2)]
+    out += [("dev1", tier, s) for s in sequences(PALL if quick else PDEV,
                                                   1 if quick else 2)]
     out += [("grid", tier, g) for g in grids("abc" if quick else "abcdef")]
     if not quick:
@@ -119,7 +122,7 @@ def cases(part, tier, first):
     descriptors still lack the kind for the linear parts (cfg has it)."""
     quick = tier == "quick"
     if part == "base":
-        for second in sequences(P8 if quick else P13, 2):
+        for second in sequences(PQUICK if quick else PALL, 2):
             n = max(len(first), len(second))
             for member in (["rev"] if quick else model.shuffle_family(n)):
                 yield first, second, with_(shuffle=member)
@@ -129,7 +132,7 @@ def cases(part, tier, first):
                 for member in model.shuffle_family(3):
                     yield first, second, with_(shuffle=member)
     elif part == "dev1":
-        for second in sequences(P13 if quick else P6, 1 if quick else 2):
+        for second in sequences(PALL if quick else PDEV, 1 if quick else 2):
             for cfg in deviations(1):
                 yield first, second, cfg
             if quick:
@@ -147,7 +150,7 @@ def cases(part, tier, first):
             for window in model.ALTERNATIVES["window"]:
                 yield first, second, with_(kind1="G", kind2="G",
                                            window=window)
-        for second in sequences(P13 if quick else P6, 1 if quick else 2):
+        for second in sequences(PALL if quick else PDEV, 1 if quick else 2):
             for member in ("rev", "id"):
                 yield first, second, with_(kind1="G", shuffle=member)
                 yield second, first, with_(kind2="G", shuffle=member)
@@ -167,8 +170,20 @@ def evaluate(spec1, spec2, cfg):
     if cfg["swap"]:
         ds1, ds2, pts1, pts2 = ds2, ds1, pts2, pts1
         exp = {(j, i): v for (i, j), v in exp.items()}
-    bad = model.judge(model.call(Collocator(), ds1, ds2, cfg),
-                      pts1, pts2, exp)
+    obs = model.call(Collocator(), ds1, ds2, cfg)
+    bad = model.judge(obs, pts1, pts2, exp)
+    if bad is None and any(v[0] != int(v[0]) for v in exp.values()):
+        # |dt| is not a whole number of seconds: whatever way the stored
+        # value is brought to whole seconds, |dt| of a pair does not depend
+        # on which of its points is the primary
+        back = model.intervals_by_pair(
+            model.call(Collocator(), ds2, ds1, cfg), transposed=True)
+        here = model.intervals_by_pair(obs)
+        differ = sorted(k for k in here if k in back and here[k] != back[k])
+        if differ:
+            bad = ("interval/changes-when-primary-and-secondary-are-swapped",
+                   [back[k] for k in differ], [here[k] for k in differ],
+                   "pairs %r" % (differ,))
     other = model.SAME_THRESHOLDS.get(cfg["thr"])
     if bad is not None and other and model.judge(
             model.call(Collocator(), ds1, ds2, dict(cfg, thr=other)),
